@@ -38,7 +38,7 @@ type c08Replay struct {
 }
 
 // options that do not concern Verify (the massive option only changes how it is done)
-var c08Extras = []string{"json", "yaml", "toml", "noiter", "fmt", "exts", "nil", "massive", "nil,toml,exts", "massive-nil,json"}
+var c08Extras = []string{"json", "yaml", "toml", "noiter", "fmt", "exts", "nil", "massive", "nil,toml,exts", "massive-nil,json", "dry", "dry,massive"}
 
 // parseVerifyErr extracts the two documented lists, relative to target.
 func parseVerifyErr(msg, target string) (extra, missing []string, ok bool) {
